@@ -229,7 +229,7 @@ static int mmd3_load(struct module_data *m, HIO_HANDLE *f, const int start)
 	}
 	for (i = 0; i < mod->ins; i++) {
 		smplarr[i] = hio_read32b(f);
-		if (hio_eof(f)) {
+		if (hio_error(f)) {
 			D_(D_CRIT "read error at smplarr pos %d", i);
 			goto err_cleanup;
 		}
